@@ -77,6 +77,7 @@ type Tr struct {
 	frames2   map[*Term]frameInfo
 	knownRtype map[*Term]*Term
 	pathRtype map[*Term]*Term
+	curBind   []Val // bindings of the closure currently being called by contract
 }
 
 // frameInfo: a havocked heap that agrees with `old` on every region allocated before (rank <= maxRank).
